@@ -52,7 +52,8 @@ pub enum AssetKind {
 #[derive(Clone, Debug)]
 pub enum Driving {
     Default,
-    Composition(Vec<usize>),
+    /// FrameCount(n) calls; `true`: every stopwatch reading is past the limit
+    Composition(Vec<usize>, bool),
     MaxMode(Vec<usize>),
     Breakpoints(Vec<u16>),
     BreakAlways,
@@ -172,7 +173,7 @@ fn run_driving(sc: Scenario, m128: bool, k: usize, d: &Driving, dev: Option<&mut
         Driving::BreakAlways => e.set_debug_interface(VDebug::always()),
         _ => {}
     }
-    let per_frame_inputs = !matches!(d, Driving::Composition(_) | Driving::MaxMode(_));
+    let per_frame_inputs = !matches!(d, Driving::Composition(..) | Driving::MaxMode(_));
     let mut call = 0usize;
     apply_inputs(&mut e, sc, 0);
     let mut guard = 0u64;
@@ -182,9 +183,10 @@ fn run_driving(sc: Scenario, m128: bool, k: usize, d: &Driving, dev: Option<&mut
             return Err("driving never reaches the frame count".into());
         }
         match d {
-            Driving::Composition(parts) => {
+            Driving::Composition(parts, late) => {
                 let n = parts.get(call).copied().unwrap_or(1);
                 e.set_speed(EmulationMode::FrameCount(n));
+                rig::stopwatch_set(vec![], if *late { limit.as_nanos() as u64 + 1 } else { 0 });
             }
             Driving::MaxMode(_) => {
                 e.set_speed(EmulationMode::Max);
@@ -214,6 +216,14 @@ fn run_driving(sc: Scenario, m128: bool, k: usize, d: &Driving, dev: Option<&mut
         }
         if info.stop_reason == EmulationStopReason::Breakpoint {
             continue;
+        }
+        if let Driving::Composition(parts, _) = d {
+            // how many frames a FrameCount(n) call emulates is part of the result (host inputs are
+            // applied between calls): it must be n whatever the stopwatch says
+            let n = parts.get(call - 1).copied().unwrap_or(1) as u64;
+            if after - before != n {
+                return Err(format!("a FrameCount({}) call emulated {} frame(s) ({})", n, after - before, if info.stop_reason == EmulationStopReason::Timeout { "stopped by the stopwatch" } else { "reported as completed" }));
+            }
         }
         // at a frame boundary
         let drained = match d {
@@ -335,10 +345,12 @@ pub fn run(tier: Tier, seed: u64, replay: Option<String>) -> i32 {
         let mut n = 2u64;
         // all compositions of K frames into FrameCount(n) calls
         for parts in compositions(k, thorough) {
-            let d = Driving::Composition(parts);
-            let g = run_driving(sc, m128, k, &d, None);
-            compare(&ctx, sc, m128, &base, &g, &d, "frames-per-call");
-            n += 1;
+            for late in [false, true] {
+                let d = Driving::Composition(parts.clone(), late);
+                let g = run_driving(sc, m128, k, &d, None);
+                compare(&ctx, sc, m128, &base, &g, &d, if late { "frames-per-call-late-stopwatch" } else { "frames-per-call" });
+                n += 1;
+            }
         }
         // Max mode: stopwatch answers explored with a deviation bound
         let bound = if thorough { 2 } else { 1 };
@@ -353,7 +365,8 @@ pub fn run(tier: Tier, seed: u64, replay: Option<String>) -> i32 {
             ctx.note("max_mode_run_cap_hit", json!(true));
         }
         // breakpoints
-        let pcs: Vec<u16> = vec![0x0038, 0x028E, 0x0010, 0x15F2, 0x10A8, 0x0556, 0x11DC, 0x0E5C];
+        // 0x056B is the address the tape fast-load trap itself sits on
+        let pcs: Vec<u16> = vec![0x0038, 0x028E, 0x0010, 0x15F2, 0x10A8, 0x0556, 0x11DC, 0x056B];
         for sub in 1..(1u32 << 8) {
             if !thorough && sub.count_ones() != 1 && sub != 0xFF {
                 continue;
@@ -401,7 +414,7 @@ pub fn run(tier: Tier, seed: u64, replay: Option<String>) -> i32 {
     ctx.note("frames", json!(k));
     ctx.note("not_judged", json!("how many frames a Max-mode call emulates (the stopwatch decides); audio when it is not drained every frame or the call spans several frames"));
     ctx.finish(
-        "scenarios {ROM boot, ROM with keys pressed/released at frame boundaries, tape fast load with autoload, real-time tape load, AY/beeper tune snapshot} x {48K,128K}; deviations from the default driving: every composition of the K frames into FrameCount(n) calls, Max mode with every stopwatch reading chosen from {0, limit, limit+1 ns} within a deviation bound, breakpoint stops at subsets of 8 ROM addresses and at every instruction, sound off, every drain/no-drain pattern, the same file bytes through BufferCursor / chunked reads {1,2,3,127,128,129} / a real file / GzipAsset; at every frame boundary a driving stops at, the digest of registers, all RAM, paging, frame clock, both frame buffers (and audio where comparable) must equal the default driving's digest of that frame; the default is run twice. distinct_nontrivial = drivings executed",
+        "scenarios {ROM boot, ROM with keys pressed/released at frame boundaries, tape fast load with autoload, real-time tape load, AY/beeper tune snapshot} x {48K,128K}; deviations from the default driving: every composition of the K frames into FrameCount(n) calls with the stopwatch always at 0 and always past the limit (each call must emulate exactly n frames), Max mode with every stopwatch reading chosen from {0, limit, limit+1 ns} within a deviation bound, breakpoint stops at subsets of 8 ROM addresses (incl. the fast-load trap address 056B) and at every instruction, sound off, every drain/no-drain pattern, the same file bytes through BufferCursor / chunked reads {1,2,3,127,128,129} / a real file / GzipAsset; at every frame boundary a driving stops at, the digest of registers, all RAM, paging, frame clock, both frame buffers (and audio where comparable) must equal the default driving's digest of that frame; the default is run twice. distinct_nontrivial = drivings executed",
         false,
         &["frame boundaries are identified by the hook frame counter", "real file assets live under harness/target/c16-tmp and are unlinked immediately"],
     )
